@@ -125,6 +125,32 @@ def check(pid, tier, args):
             accepted + 1, len(trials), json.dumps(trials[min(accepted, len(trials) - 1)])))
     run.cov["traces_validated_against_impl"] = len(trials) if r.violated == "NotAllAccepted" else accepted
     run.cov["hook_trials_recorded"] = len(trials)
+    # 4. the metadata loaders: two loads at once under every interleaving of their sources'
+    # deliveries (Interleave.tla), each compared with the same load executed alone
+    import icchdr
+    drive = vlib.go_build("cmd/drive")
+    scheds = icchdr.interleavings(run)
+    iso = os.path.join(vlib.scratch(), "iso")
+    os.makedirs(iso, exist_ok=True)
+    with open(os.path.join(iso, "scheds.ndjson"), "w") as f:
+        for k in range(2 if tier == "quick" else 20):
+            for sc in scheds:
+                f.write(json.dumps(sc) + "\n")
+    p = vlib.run([drive, "interleave", "-what", "loaders", "-scheds", os.path.join(iso, "scheds.ndjson"), "-out", iso,
+                  "-seed", str(vlib.seed()), "-repo", vlib.REPO], timeout=3000)
+    st = json.loads(p.stdout.strip().splitlines()[-1])
+    if st["followed"] * 2 < st["schedules"]:
+        raise vlib.Infra("only %d of %d loader interleavings could be forced" % (st["followed"], st["schedules"]))
+    run.cov["forced_loader_interleavings"] = st
+    results, rejects, lines = vlib.validate_trace("TraceIsolation", "TraceIsolation.cfg", os.path.join(iso, "iso.ndjson"), shards=2, heap="1g")
+    for res in results:
+        run.add_tlc("TraceIsolation", res)
+    run.cov["traces_validated_against_impl"] += len(lines)
+    for n, pr in rejects[:6]:
+        ev = json.loads(lines[n])
+        run.violation({"finding_key": None, "event": ev},
+                      "%s loader on %s while another loads %s (schedule %s): returned %s, alone it returns %s" % (
+                          ev["loader"], ev["file"], ev["other"], ev["sched"], ev["got"], ev["solo"]))
     run.sample({"forced_schedule": s2[0], "tables": TABLES})
     run.sample(trials[0])
     run.cov["bounds"] = {"model": "N=2,3 goroutines, all interleavings", "ungated": ung, "repetitions": reps}
